@@ -132,3 +132,8 @@ def xview(E, off):
         k = E[off + i] if i < 4 else E[off + 4 + i]
         out.append(E[off + 8 + i] ^ k)
     return bytes(out)
+
+
+def same(a, b):
+    """identical values (SMT: equality of the boxed terms)"""
+    return a == b
